@@ -271,7 +271,10 @@ func c04Run(c *core.Ctx) *core.Result {
 	if plan.Class != "walk" && plan.Class != "read" && plan.K%2 == 0 {
 		srcFS = c04DiskSrc(dest, src)
 	}
-	res := runSync(syncOpt{Cfg: cfg, Src: srcFS, Dest: dest, TeardownWhenStuck: true, Timeout: 90 * time.Second,
+	// source-side faults (and every second other plan) run over a transport
+	// that shows the receiver a plain end of stream when the sender gives up
+	eofOnErr := plan.Class == "walk" || plan.Class == "read" || plan.K%2 == 1
+	res := runSync(syncOpt{Cfg: cfg, Src: srcFS, Dest: dest, TeardownWhenStuck: true, Timeout: 90 * time.Second, EOFOnSendError: eofOnErr,
 		OnPair: func(p *wire.Pair) { pair = p },
 		Recv:   fsutil.ReceiveOpt{NotifyHashed: nrec.fn, ContentHasher: hs.fn}})
 	// did the source-side / callback faults fire?
